@@ -60,6 +60,10 @@ func (m *MemoryKV) Renew(ctx context.Context, lease []byte, ttl time.Duration, p
 
 func (m *MemoryKV) Release(ctx context.Context, lease []byte, token uint64) error {
 	v, _ := m.fetchVal(lease)
+	if token == 0 {
+		// 0 is the "free" marker, never a granted token: releasing with it must not succeed
+		return chord.ErrKVLeaseExpired
+	}
 	if !v.lease.CompareAndSwap(token, 0) {
 		return chord.ErrKVLeaseExpired
 	}
